@@ -485,7 +485,7 @@ func (m *model) ruleCountdown(s *report.Sink) {
 				s.Bad("S7", key, m.ipos(a.in), "the registration loop over the new job's dependencies can be left early: some dependencies are never registered")
 			case notDone == nil:
 				s.Bad("S7", key, m.ipos(a.in), "registration on a dependency is not guarded by !dep.done: a finished dependency would never notify and the job waits for ever")
-			case len(conds) != 1:
+			case len(conds) != 1 || !m.alwaysFrom(notDone, a.in, func(b *ssa.BasicBlock) bool { return tl.blocks[b] && b != tl.header }):
 				s.Bad("S7", key, m.ipos(a.in), "the +1 is subject to a further condition beyond !dep.done ("+atomStrings(conds)+"): the countdown and the notifications it will receive diverge, so the job can become ready while a dependency is still running")
 			default:
 				incSites = append(incSites, site{a, tl, atomStrings(conds)})
@@ -529,9 +529,11 @@ func (m *model) ruleCountdown(s *report.Sink) {
 			if tl != nil && m.key(a.base) == m.elemKey(tl) {
 				x := m.appendedTo(a.store.Val, m.elemKey(tl), m.sjConsumers)
 				if x != nil && m.key(x) == enqKey {
-					as := atomStrings(m.atomsSince(a.in, tl.header))
+					conds := m.atomsSince(a.in, tl.header)
+					as := atomStrings(conds)
+					always := len(conds) == 1 && m.alwaysFrom(&conds[0], a.in, func(b *ssa.BasicBlock) bool { return tl.blocks[b] && b != tl.header })
 					for _, is := range incSites {
-						if is.tl == tl && is.atoms == as && a.in.Parent() == is.a.in.Parent() {
+						if is.tl == tl && is.atoms == as && a.in.Parent() == is.a.in.Parent() && always {
 							good = true
 						}
 					}
@@ -597,9 +599,10 @@ func (m *model) ruleCountdown(s *report.Sink) {
 			return ok && !pol
 		})
 		pos23 = m.ipos(a.in)
-		if d != nil && e != nil && len(conds) == 2 && tl.whole {
+		body := func(b *ssa.BasicBlock) bool { return tl.blocks[b] && b != tl.header }
+		if d != nil && e != nil && len(conds) == 2 && tl.whole && m.alwaysFrom(e, a.in, body) {
 			ok23 = true
-		} else if e != nil && len(conds) == 1 && tl.whole {
+		} else if e != nil && len(conds) == 1 && tl.whole && m.alwaysFrom(e, a.in, body) {
 			// `if dep.err != nil` alone is equivalent: err is only set on done jobs
 			ok23 = true
 		}
@@ -1085,7 +1088,8 @@ func (m *model) ruleContinue(s *report.Sink) {
 					}
 				}
 			}
-			okConds := g != nil && cont != nil && isFailed(conds) != nil && len(conds) == 3 && m.armOf(c) == m.armDone.name
+			okConds := g != nil && cont != nil && isFailed(conds) != nil && len(conds) == 3 && m.armOf(c) == m.armDone.name &&
+				m.alwaysFrom(g, c, m.armDone.inside) && g.ifi != nil && m.alwaysFrom(cont, g.ifi, m.armDone.inside)
 			s.Check(okConds && shape && stored, "S22", "loop|s.err = multierr.Append(s.err, err) iff !sentinel", m.ipos(c), "every real failure is appended exactly once, the sentinel never", "multierr.Append is not exactly `s.err = multierr.Append(s.err, err)` under err != nil && continueOnError && !errors.Is(err, sentinel) (found: "+atomStrings(conds)+")")
 		})
 	}
